@@ -53,6 +53,7 @@ def check(run):
     with R.as_rule('C12.enter'):
         C08.writers(R)       # the closing / closed flags change only at their tabled places: no window (say at the Closed
                              # event) in which neither is set while the socket is still open
+    compression_writers(R, 'C12.enter')
     from . import C17
     R.rule('C12.session', 'the state that refuses sends and the socket they go to belong to the same connection: every '
                           'connect() gets a newly built session (no socket of the previous connection behind fresh flags)', 5)
@@ -119,3 +120,18 @@ def set_(R):
          'critical section: between the two another thread can write a data frame after the Close, or pass its own '
          '`not is_closing` test and write a second Close', func=q, node=(st[0].ast if st else c),
          construct='closing flag set outside the Close write\'s critical section')
+
+
+def compression_writers(R, RID):
+    """send_text / send_binary test state.compression and then use it, outside any lock: the field is set once per
+    connection (State.__init__, process_extensions) and never cleared while another thread may be between the two."""
+    from .common import stores_in_package
+    w = [(c, s_, t, v) for (c, s_, t, v) in stores_in_package(R, 'compression')
+         if any(isinstance(x, str) and x == 'inst:websocket.WebSocket.State' for x in R.types.expr(t.value, c))]
+    quals = sorted(set(c.func.qual for (c, _, _, _) in w))
+    allowed = {'websocket.WebSocket.State.__init__', 'websocket.WebSocket.process_extensions'}
+    bad = [q_ for q_ in quals if q_ not in allowed]
+    R.ob(RID, 'state.compression is written once per connection', not bad and bool(quals),
+         'State.compression is also written in %s: a sender that has just tested it (send_text / send_binary read it twice, '
+         'without a lock) then calls .compress on None - the losing send fails with AttributeError, not a WebSocketError'
+         % bad, func=(bad[0] if bad else None), node=None, construct='State.compression writers %s' % quals)
